@@ -1,4 +1,4 @@
 Require Import ExtrOcamlBasic.
-From Eupsv Require Import Base.Base Model.Crash Model.Db Model.CrashDb.
+From Eupsv Require Import Base.Base Model.Crash Model.Db Model.CrashDb Model.CrashXdev.
 Extraction "model.ml" keep_types crash_state lower_atomic lower_inplace lower_all apply_effects is_tmp
-  empty_db run effects_gen image read_db crash_fs store_of view.
+  empty_db run effects_gen image read_db crash_fs store_of view lower_atomic_at target_kinds load_cache.
